@@ -48,8 +48,10 @@ func (q *ProvideQueue) Persist(ctx context.Context, d ds.Batching, batchSize int
   ghostvar $pending int = 0
   modifies *
   ensures [internal-all-committed] imp(result == nil, $pending == 0)
-  loop 0 invariant i >= 0 && $pending == mod(i, batchSize)
-  loop 1 invariant i >= 0 && 0 <= $pending && $pending <= mod(i, batchSize)
+  # (weaker than 'pending = i mod batchSize', but all the final claim needs, and it
+  # is preserved without any reasoning about consecutive remainders)
+  loop 0 invariant i >= 0 && $pending >= 0 && imp(i % batchSize == 0, $pending == 0)
+  loop 1 invariant i >= 0 && $pending >= 0 && imp(i % batchSize == 0, $pending == 0)
   ghost at call(Delete): $pending = $pending + 1
   ghost at call(Put): $pending = $pending + 1
   ghost at call(Commit): $pending = 0
